@@ -147,8 +147,74 @@ func verifC20_stuck() {
 		err = c.Close(StatusNormalClosure, "")
 	}
 	vReach("C20.stuck.returned")
+	if client {
+		vClassify("role", "client")
+	} else {
+		vClassify("role", "server")
+	}
 	n := vGhostGoroutines()
 	vAssert(n == 0, "C20.stuck.no-goroutine-left-when-close-returns")
 	vAssert(vNot(vIsOpen(c)), "C20.stuck.closed")
 	vObserve("stuck", err == nil)
+}
+
+// C20.concurrent: a second closer arrives while a Close is in the middle of its handshake (the peer is silent, so the
+// first Close waits for its 5 s limit). Whatever the second call is and whatever it returns, once it has returned no
+// goroutine the library started for the connection is left, and the connection is closed.
+func verifC20_concurrent() {
+	client := vParam("client", 1) == 1
+	vInstallRand()
+	t := vNewTransport(nil)
+	t.endMode = vEndBlock
+	c := vNewConn(t, client, nil, 32, 64)
+	if vChoose("closeread", 2) == 1 {
+		c.CloseRead(vBG)
+		vGhostSettle()
+	}
+	firstDone := make(chan struct{})
+	go func() {
+		c.Close(StatusNormalClosure, "")
+		close(firstDone)
+	}()
+	vGhostSettle() // the first Close has sent its Close frame and waits for the peer's
+	var err error
+	if vChoose("second", 2) == 1 {
+		err = c.CloseNow()
+	} else {
+		err = c.Close(StatusGoingAway, "")
+	}
+	vReach("C20.concurrent.second-returned")
+	vAssert(vGhostGoroutines() == 0, "C20.concurrent.no-goroutine-left-when-second-closer-returns")
+	vAssert(vNot(vIsOpen(c)), "C20.concurrent.closed")
+	<-firstDone
+	vObserve("concurrent", err == nil)
+}
+
+// C20.stuck-app: an application goroutine is inside a transport Read (holding the read lock) when CloseNow / Close is
+// called, and the transport takes 300 ms to unwind that Read after it was closed. The library does not wait for the
+// application's goroutine, but nothing the library itself started may be left when the call returns.
+func verifC20_stuck_app() {
+	client := vParam("client", 1) == 1
+	vInstallRand()
+	t := vNewTransport(nil)
+	t.endMode = vEndBlock
+	t.slowReadRelease = 300 * time.Millisecond
+	c := vNewConn(t, client, nil, 32, 64)
+	readDone := make(chan struct{})
+	go func() {
+		c.Read(vBG)
+		close(readDone)
+	}()
+	vGhostSettle() // the application's reader is inside the transport Read
+	var err error
+	if vChoose("closenow", 2) == 1 {
+		err = c.CloseNow()
+	} else {
+		err = c.Close(StatusNormalClosure, "") // (the peer never answers: Close gives up after its 5 s limit)
+	}
+	vReach("C20.stuck-app.returned")
+	vAssert(vGhostGoroutines() == 0, "C20.stuck-app.no-library-goroutine-left-when-close-returns")
+	vAssert(vNot(vIsOpen(c)), "C20.stuck-app.closed")
+	<-readDone
+	vObserve("stuck-app", err == nil)
 }
